@@ -17,7 +17,7 @@ impl<'a> From<(AttributeName<'a>, Vec<AttributeValue<'a>>)> for Attribute<'a> {
 
 // -----------------------------------------------------------------------------------------------
 
-#[derive(Clone, Debug, Default, PartialEq)]
+#[derive(Clone, Debug, Default, PartialEq, Eq, Hash)]
 pub enum AttributeName<'a> {
     #[default]
     DefaultNamespace,
